@@ -620,11 +620,13 @@ pub fn run(cfg: &Cfg) -> i32 {
                                             found
                                         };
                                         let quoted_name = quoted_name || branch_mentions_a_variable(&case.prog);
+                                        // the expression's own branches may be clean while a helper it calls has the let shape
+                                        let helper_has_let_shape = !quoted_name && !quoted_gensym && branch_mentions_a_let_bound_name(&case.prog, &[]);
                                         let lambda_keeps_generated_names = r.contains("(lambda") && r.contains("_$_");
                                         let sig = if lambda_keeps_generated_names && !quoted_name {
                                             // listed finding: a lambda left in the residual keeps generated names for its captures / parameters
                                             Some("repl:free-variable-captured-by-a-lambda-is-renamed-in-the-residual")
-                                        } else if quoted_name { Some("repl:free-variable-in-conditional-branch-is-quoted-as-its-name") } else if quoted_gensym { Some("repl:let-bound-variable-in-conditional-branch-becomes-its-name") } else { None };
+                                        } else if quoted_name { Some("repl:free-variable-in-conditional-branch-is-quoted-as-its-name") } else if helper_has_let_shape { Some("repl:let-bound-variable-in-conditional-branch-becomes-its-name") } else if quoted_gensym { Some("repl:let-bound-variable-in-conditional-branch-becomes-its-name") } else { None };
                                         out.violation(json!({"kind":"residual_program_disagrees_with_the_original","engine":"c16","sig":sig,"case":id,"definitions":defs,"expression":trunc(&body,1200),"residual":trunc(&r,1200),"args":a.show(),"original_returns":w.show(),"residual_returns":got.show()}));
                                     }
                                 }
